@@ -51,7 +51,13 @@ class Shape:
     def unwind(self):
         # input loops (N+1), Vec growth / memcmp, the then_ignore(end()) tail; refsem recursion = AST depth;
         # refsem item loops are bounded by MAX_ITEMS(6)+1 only where the solver cannot cut them earlier.
-        return max(self.n + 2, self.node.depth + 1) + self.extra_unwind
+        u = max(self.n + 2, self.node.depth + 1) + self.extra_unwind
+        nodes = [self.node] + ([self.node2] if self.node2 is not None else [])
+        if any(("rep" in n.flags or "sep" in n.flags) and n.sites > 0 for n in nodes):
+            # emitters inside a repetition: the error list (and the loops that collect / drop it) can be longer
+            # than the input — every emitter reports up to 4 copies
+            u += 2
+        return u
 
 
 def draws(node, np, node2=None):
@@ -96,7 +102,7 @@ pub fn {sh.name}_body<S: Src>(s: &mut S) {{
         if cok:
             assert node.sites <= 1 and all(i == 1 for i in node.ids), (sh.name, "content check needs one emitting site of weight 1")
         body = (f"    crate::fam_emis!(\"{prop_label}\", p, AST, x, t, [{perms}], {'true' if cok else 'false'}, "
-                f"{'true' if 'fail' in sh.content else 'false'});\n")
+                f"{'true' if 'fail' in sh.content else 'false'}, {aa});\n")
     elif sh.fam == "far_found":
         body = f"    crate::fam_far_found!(\"{prop_label}\", p, AST, x, t);\n"
     elif sh.fam == "far":
